@@ -82,7 +82,7 @@ fn correct_reply(code: u32, req: &[u8], rv: u64, rng_fill: u8) -> (Vec<u8>, Vec<
 
 impl Peer {
     /// Answer one request according to `behaviour`. Returns a description of what was sent.
-    fn answer(&mut self, m: &Value, behaviour: &str, rv: u64, rng: &mut Rng) -> Value {
+    fn answer(&mut self, m: &Value, behaviour: &str, rv: u64, rng: &mut Rng, step: &Value, fe_fd: i32) -> Value {
         let code = m["c"].as_u64().unwrap() as u32;
         let flags = m["flags"].as_u64().unwrap() as u32;
         let req = unhex(m["body"].as_str().unwrap());
@@ -107,7 +107,7 @@ impl Peer {
         let mut rcode = code;
         let mut rflags: u32 = 1 | 4;
         let mut size = body.len() as u32;
-        let mut close_after = behaviour != "auto";
+        let mut close_after = behaviour != "auto" && behaviour != "seg";
         match behaviour {
             "auto" => {}
             "silent" => {
@@ -186,11 +186,59 @@ impl Peer {
         bytes.extend_from_slice(&body);
         let fds: Vec<i32> = files.iter().map(|f| f.as_raw_fd()).collect();
         let ids: Vec<String> = fds.iter().map(|f| fd_id(*f)).collect();
-        let _ = raw_send_all(&self.sock, &bytes, &fds);
-        if close_after {
-            let _ = self.sock.shutdown(std::net::Shutdown::Write);
+        // offsets given by the case: n >= 0 as is, -1 = middle of the message, -2 = its last byte
+        let pos = |x: i64| -> usize {
+            match x {
+                -1 => bytes.len() / 2,
+                -2 => bytes.len() - 1,
+                n => n as usize,
+            }
+        };
+        let mut applied = behaviour.to_string();
+        match behaviour {
+            "cut" => {
+                // C08: the stream ends inside the (correct) reply
+                let at = pos(step["at"].as_i64().unwrap_or(0));
+                if at < bytes.len() {
+                    if at > 0 {
+                        let _ = raw_send_all(&self.sock, &bytes[..at], &fds);
+                    }
+                    let _ = self.sock.shutdown(std::net::Shutdown::Write);
+                } else {
+                    applied = "cut_beyond".into();
+                    let _ = raw_send_all(&self.sock, &bytes, &fds);
+                    let _ = self.sock.shutdown(std::net::Shutdown::Write);
+                }
+            }
+            "seg" => {
+                // C08: the (correct) reply arrives in separate segments; the next one is written only after the
+                // receiver has drained the previous one
+                let mut cuts: Vec<usize> = step["segs"].as_array().map(|a| a.iter().map(|x| pos(x.as_i64().unwrap_or(0))).collect()).unwrap_or_default();
+                cuts.retain(|c| *c > 0 && *c < bytes.len());
+                cuts.sort();
+                cuts.dedup();
+                if cuts.is_empty() {
+                    applied = "seg_none".into();
+                }
+                cuts.push(bytes.len());
+                let mut from = 0;
+                for (i, to) in cuts.iter().enumerate() {
+                    let _ = raw_send_all(&self.sock, &bytes[from..*to], if i == 0 { &fds } else { &[] });
+                    from = *to;
+                    let t0 = Instant::now();
+                    while fionread(fe_fd) > 0 && t0.elapsed() < Duration::from_millis(500) {
+                        std::thread::sleep(Duration::from_micros(20));
+                    }
+                }
+            }
+            _ => {
+                let _ = raw_send_all(&self.sock, &bytes, &fds);
+                if close_after {
+                    let _ = self.sock.shutdown(std::net::Shutdown::Write);
+                }
+            }
         }
-        let enc = if behaviour != "auto" { json!({}) } else { match code {
+        let enc = if behaviour != "auto" && behaviour != "seg" { json!({}) } else { match code {
             1 | 15 => json!({"v": limbs(rv)}),
             17 => json!({"v": limbs(2)}),
             36 => json!({"v": limbs(509)}),
@@ -203,7 +251,7 @@ impl Peer {
             _ => json!({}),
         }};
         json!({"kind": if has_reply {"reply"} else {"ack"}, "enc": enc, "c": rcode, "flags": rflags, "size": size, "body": hex(&body),
-               "fdids": ids, "nfds": fds.len(), "fill": fill})
+               "fdids": ids, "nfds": fds.len(), "fill": fill, "applied": applied, "len": bytes.len()})
     }
 }
 
@@ -213,6 +261,8 @@ pub fn run(cases: &[Value], trace: &mut Trace, seed: u64) {
         let watch = FdWatch::start();
         let (fsock, psock) = UnixStream::pair().unwrap();
         let fe = Frontend::from_stream(fsock, MAXQ);
+        // taken now: Frontend::as_raw_fd() locks the endpoint, which a blocked call holds
+        let fe_fd = fe.as_raw_fd();
         let mut peer = Peer {
             sock: psock,
             offered_pf: false,
@@ -268,11 +318,11 @@ pub fn run(cases: &[Value], trace: &mut Trace, seed: u64) {
                         let m = msgs[consumed_msgs].clone();
                         consumed_msgs += 1;
                         if !done {
-                            answers.push(peer.answer(&m, behaviour, rv, &mut rng));
+                            answers.push(peer.answer(&m, behaviour, rv, &mut rng, step, fe_fd));
                         } else {
                             // fire-and-forget requests: an independent backend would still answer by
                             // its own rules; keep the bookkeeping but answer only in "auto" mode
-                            answers.push(peer.answer(&m, if behaviour == "auto" { "auto" } else { "silent" }, rv, &mut rng));
+                            answers.push(peer.answer(&m, if behaviour == "auto" || behaviour == "seg" { "auto" } else { "silent" }, rv, &mut rng, step, fe_fd));
                         }
                     }
                     wire = msgs;
@@ -296,11 +346,12 @@ pub fn run(cases: &[Value], trace: &mut Trace, seed: u64) {
                 Some(o) => (o.res, o.ret, o.args, o.fdids, o.lent_ok),
                 None => ("panic".to_string(), json!({}), json!({}), vec![], true),
             };
-            let dead = behaviour != "auto" || hang;
+            let dead = (behaviour != "auto" && behaviour != "seg") || hang;
             trace.emit(json!({"ev": "call", "op": op, "cls": cls, "v": bits(v), "rv": bits(rv), "peer": behaviour,
                 "res": res, "ret": ret, "args": args, "fdids": fdids, "lent_ok": lent_ok, "hang": hang,
                 "wire": wire, "nwire": wire.len(), "wire_leftover": leftover, "fd_first": fd_first,
-                "answers": answers, "stray_in": stray_in}));
+                "answers": answers, "stray_in": stray_in,
+                "at": step["at"].as_i64().unwrap_or(-9), "segs": if step["segs"].is_array() { step["segs"].clone() } else { json!([]) }}));
             if dead {
                 break;
             }
